@@ -5,5 +5,5 @@ CONSTANTS
   Offsets = {0, 4}
   MaxIdx = 11
 INVARIANTS TypeOK NeverForgetsNorInvents GetInPlace NoZeroBelowOffset HeadNotFullAfterSet MonitorEquiv
-PROPERTIES OffsetMonotone CompactKeepsGets PassedOnlySet
+PROPERTIES FunctionalFormsAgree OffsetMonotone CompactKeepsGets PassedOnlySet
 CHECK_DEADLOCK FALSE
